@@ -19,3 +19,109 @@ package zap
 //@   track L = field zap.loggerWriter.logFunc
 //@   ensures #L == 1
 //@   ensures result.1 == nil ==> result.0 == len(p)
+
+// ---------------------------------------------------------------------------
+// level.go: AtomicLevel (C05, C20)
+
+//@ func (zap.AtomicLevel).Level
+//@   props C05 C20
+//@   arith bv
+//@   flags nopanic
+//@   requires lvl.l != nil
+//@   modifies nothing
+//@   ensures result == int8(lvl.l.v)
+
+//@ func (zap.AtomicLevel).SetLevel
+//@   props C05 C20
+//@   arith bv
+//@   flags nopanic
+//@   requires lvl.l != nil
+//@   modifies lvl.l.v
+//@   ensures lvl.l.v == int32(l)
+
+//@ func (zap.AtomicLevel).Enabled
+//@   props C05
+//@   arith bv
+//@   flags nopanic
+//@   requires lvl.l != nil
+//@   modifies nothing
+//@   ensures result <==> l >= int8(lvl.l.v)
+
+// Level() after SetLevel(l) is l, for all 256 level values.
+//@ lemma atomic_level_roundtrip
+//@   props C05 C20
+//@   arith bv
+//@   statement forall l int8 :: int8(int32(l)) == l
+
+//@ func zap.NewAtomicLevel
+//@   props C05
+//@   arith bv
+//@   flags nopanic
+//@   ensures fresh(result.l) && result.l.v == int32(InfoLevel)
+
+//@ func zap.NewAtomicLevelAt
+//@   props C05
+//@   arith bv
+//@   flags nopanic
+//@   ensures fresh(result.l) && result.l.v == int32(l)
+
+//@ func (*zap.AtomicLevel).UnmarshalText
+//@   props C20
+//@   flags nopanic
+//@   requires lvl != nil
+//@   modifies lvl.l, lvl.l.v
+//@   ensures old(lvl.l) != nil ==> lvl.l == old(lvl.l)
+//@   ensures (result == nil) <==> (isLevelName(seq(text)) || isLevelName(lower(seq(text))))
+//@   ensures result != nil && old(lvl.l) != nil ==> lvl.l.v == old(lvl.l.v)
+//@   ensures result == nil && isLevelName(seq(text)) ==> lvl.l.v == int32(levelOfName(seq(text)))
+
+// ---------------------------------------------------------------------------
+// http_handler.go (C20)
+
+//@ func (zap.AtomicLevel).serveHTTP
+//@   props C20
+//@   flags nopanic
+//@   requires lvl.l != nil && w != nil && r != nil
+//@   track SET = call (zap.AtomicLevel).SetLevel
+//@   track DEC = call zap.decodePutRequest
+//@   track WH = invoke net/http.ResponseWriter.WriteHeader
+//@   track ENC = call (*encoding/json.Encoder).Encode
+//@   ensures #ENC == 1
+//@   ensures old(r.Method) != "PUT" ==> #SET == 0 && #DEC == 0 && lvl.l.v == old(lvl.l.v)
+//@   ensures old(r.Method) == "PUT" ==> #DEC == 1 && DEC.arg1[0] == r
+//@   ensures old(r.Method) == "PUT" && DEC.ret1[0] != nil ==> #SET == 0 && lvl.l.v == old(lvl.l.v) && #WH == 1 && WH.arg0[0] == 400
+//@   ensures old(r.Method) == "PUT" && DEC.ret1[0] == nil ==> #SET == 1 && SET.arg0[0] == DEC.ret0[0] && lvl.l.v == int32(DEC.ret0[0]) && #WH == 0 && DEC.ts[0] < SET.ts[0] && SET.ts[0] < ENC.ts[0]
+//@   ensures old(r.Method) == "GET" ==> #WH == 0
+//@   ensures old(r.Method) != "PUT" && old(r.Method) != "GET" ==> #WH == 1 && WH.arg0[0] == 405
+
+//@ func zap.decodePutRequest
+//@   props C20
+//@   flags nopanic
+//@   modifies $user
+//@   requires r != nil
+//@   track U = call zap.decodePutURL
+//@   track J = call zap.decodePutJSON
+//@   ensures contentType == "application/x-www-form-urlencoded" ==> #U == 1 && #J == 0 && result.0 == U.ret0[0] && result.1 == U.ret1[0]
+//@   ensures contentType != "application/x-www-form-urlencoded" ==> #U == 0 && #J == 1 && result.0 == J.ret0[0] && result.1 == J.ret1[0]
+
+//@ func zap.decodePutURL
+//@   props C20
+//@   flags nopanic
+//@   modifies $user
+//@   requires r != nil
+//@   track FV = call (*net/http.Request).FormValue
+//@   ensures #FV == 1 && FV.arg0[0] == "level"
+//@   ensures FV.ret0[0] == "" ==> result.1 != nil
+//@   ensures FV.ret0[0] != "" ==> ((result.1 == nil) <==> (isLevelName(FV.ret0[0]) || isLevelName(lower(FV.ret0[0]))))
+//@   ensures result.1 == nil && isLevelName(FV.ret0[0]) ==> result.0 == levelOfName(FV.ret0[0])
+//@   ensures result.1 == nil && !isLevelName(FV.ret0[0]) ==> result.0 == levelOfName(lower(FV.ret0[0]))
+//@   ensures result.1 != nil ==> result.0 == 0
+
+//@ func zap.decodePutJSON
+//@   props C20
+//@   flags nopanic
+//@   modifies $user
+//@   track D = call (*encoding/json.Decoder).Decode
+//@   ensures #D == 1
+//@   ensures D.ret0[0] != nil ==> result.1 != nil
+//@   ensures result.1 != nil ==> result.0 == 0
